@@ -11,6 +11,7 @@ import (
 
 // pParams sizes a parser-world check.
 type pParams struct {
+	batch    int // set by the runner: the batch being generated
 	batches  int // independent worlds (each built and simulated in turn)
 	grammars int
 	inputs   int
@@ -36,6 +37,8 @@ type pProp struct {
 	accept  func(gp *genParser) bool
 	dkey    func(req *parsersim.Request, resp *parsersim.Response) string
 	restart int // restart the child process every so many cases (0: never)
+	// collect sees every answered case (used to hand observations to a later pass).
+	collect func(batch int, gp *genParser, req *parsersim.Request, resp *parsersim.Response)
 	// post runs after the cases of a batch; it may add violations and statistics.
 	post func(pp *pProp, pw *parserWorld, reqs []*parsersim.Request, owner []*genParser, outs []pOutcome, env []string, rep *reporter, seed uint64, stats map[string]int) int
 }
@@ -85,6 +88,7 @@ func runParserProp(pp *pProp, tier string) int {
 		var reqs []*parsersim.Request
 		var owner []*genParser
 		for _, gp := range pw.parsers {
+			p.batch = batch
 			for _, rq := range pp.mkReqs(r, gp, p) {
 				if nb > 1 {
 					rq.ID = fmt.Sprintf("b%d-%s", batch, rq.ID)
@@ -132,17 +136,35 @@ func runParserProp(pp *pProp, tier string) int {
 				}
 			}
 			re := runParserCases(pw, again, to, env, 1)
+			verdict := func(r *parsersim.Response) string {
+				// what a verdict is made of; simulator decisions and pool statistics may
+				// legitimately differ between a warm and a cold process
+				var cl []string
+				for _, v := range r.Violations {
+					cl = append(cl, v.Class)
+				}
+				return fmt.Sprintf("%d %v %v %v", r.Runs, cl, r.Digests, r.Hashes)
+			}
 			for k, o := range re {
 				if o.Status != "ok" {
 					continue
 				}
-				a, b := mustJSON(outs[idx[k]].Resp), mustJSON(o.Resp)
-				if string(a) != string(b) {
-					os.WriteFile("/tmp/verif-nondet-a.json", a, 0o644)
-					os.WriteFile("/tmp/verif-nondet-b.json", b, 0o644)
-					fatalHarness("the simulation is not deterministic: case %s gave two different responses in two processes (saved to /tmp/verif-nondet-{a,b}.json)", reqs[idx[k]].ID)
-				}
 				stats["determinism_spot_checks"]++
+				if verdict(outs[idx[k]].Resp) == verdict(o.Resp) {
+					continue
+				}
+				// a third execution, again in a fresh process, tells a harness defect
+				// (two fresh processes disagree) from code under test whose behaviour
+				// depends on what the process did before
+				third := runParserCases(pw, []*parsersim.Request{reqs[idx[k]]}, to, env, 1)
+				if third[0].Status == "ok" && verdict(third[0].Resp) == verdict(o.Resp) {
+					stats["cases_depending_on_process_history"]++
+					fmt.Printf("NOTE: %s: case %s gives another result in a process that ran other cases before than in a fresh process (the code under test keeps state between calls)\n", pp.id, reqs[idx[k]].ID)
+					continue
+				}
+				os.WriteFile("/tmp/verif-nondet-a.json", mustJSON(outs[idx[k]].Resp), 0o644)
+				os.WriteFile("/tmp/verif-nondet-b.json", mustJSON(o.Resp), 0o644)
+				fatalHarness("the simulation is not deterministic: case %s gave different responses in two fresh processes (saved to /tmp/verif-nondet-{a,b}.json)", reqs[idx[k]].ID)
 			}
 		}
 		if pp.post != nil {
@@ -181,6 +203,9 @@ func runParserProp(pp *pProp, tier string) int {
 				continue
 			}
 			runs += o.Resp.Runs
+			if pp.collect != nil {
+				pp.collect(batch, gp, reqs[i], o.Resp)
+			}
 			if os.Getenv("VERIF_NOTES") != "" {
 				for _, n := range o.Resp.Notes {
 					fmt.Println("NOTE:", n)
